@@ -204,6 +204,7 @@ class Interp:
         self.assumed = []
         self.cp_range = {}
         self.int_range = {}
+        self.decided = {}
         self.keepalive = []
         self.inputs = None
         self.quick.reset()
@@ -272,6 +273,21 @@ class Interp:
             return False
         if self.concrete:
             raise Unsupported('symbolic condition in concrete mode')
+        # conditions already decided on this path (the same comparison is often repeated by different functions)
+        cid = c.get_id()
+        hit = self.decided.get(cid)
+        if hit is not None:
+            return hit
+        if z3.is_not(c):
+            hit = self.decided.get(c.arg(0).get_id())
+            if hit is not None:
+                return not hit
+        d = self._branch(c)
+        self.decided[cid] = d
+        self.keepalive.append(c)
+        return d
+
+    def _branch(self, c):
         k = len(self.trace)
         if k < len(self.prefix):
             d = self.prefix[k]
